@@ -33,12 +33,17 @@ QUERIES = [
     "PO->VA",
     "VA->PO",
     "VA==PO",
+    # the same conversion asked with an equal magnitude of another numeric type (1, 1.0 and
+    # Decimal(1) are equal and hash alike: a memo keyed by the quantity would confuse them)
+    "X1->X3 float",
+    "X1->X3 Decimal",
 ]
 QUICK_QUERIES = QUERIES
 # the property is about memoisation against declarations; the synthetic system carries it,
 # so only the SI module is loaded: failing path searches (the common case here) walk the
 # whole definition graph and are ~6x cheaper than with all seventeen modules
 MODULES = ("measured.si",)
+CORE_QUERIES = ["X1->m", "m->X1", "X1->X3", "X1==8*X3", "X1->X3 Decimal"]
 
 
 class Ctx:
@@ -151,6 +156,12 @@ class C08Model(Model):
                 v = ((1 * X[1]) + (1 * X[3])).magnitude
             elif name == "sorted":
                 v = [q.magnitude for q in sorted([1 * X[1], 3 * X[3], 1 * X[2]])]
+            elif name == "X1->X3 float":
+                v = (1.0 * X[1]).in_unit(X[3]).magnitude
+            elif name == "X1->X3 Decimal":
+                from decimal import Decimal
+
+                v = (Decimal(1) * X[1]).in_unit(X[3]).magnitude
             elif name == "m->X1":
                 v = (1 * m).in_unit(X[1]).magnitude
             elif name == "X3^2->Z":
@@ -275,7 +286,7 @@ def run(rep, tier):
     # its redundant shortcut, declared in any order with end-to-end queries in between
     # (a stale "no path" between two units that a LATER declaration bridges indirectly
     # needs two declarations, a query, the bridging declaration and a query again)
-    core = C08Model(queries=["X1->m", "m->X1", "X1->X3", "X1==8*X3"], decls=DECLS[:4])
+    core = C08Model(queries=CORE_QUERIES, decls=DECLS[:4])
     core.tag = "core"
     cdepth = 6 if thorough else 5
     ex2 = HistoryExplorer(w, core, max_depth=cdepth, time_cap=2400 if thorough else 200).run()
@@ -323,7 +334,7 @@ def replay(obj, kind=None):
     w = get_world(MODULES)
     model = C08Model()
     if obj.get("model") == "core":
-        model = C08Model(queries=["X1->m", "m->X1", "X1->X3", "X1==8*X3"], decls=DECLS[:4])
+        model = C08Model(queries=CORE_QUERIES, decls=DECLS[:4])
     hist = obj["history"]
     c = model.init(w)
     for ev in hist:
